@@ -94,6 +94,88 @@ theorem transform_support_unstored (f : VFun α) (ids : List Id) (mds : Option (
   obtain ⟨e, he, rfl⟩ := List.mem_map.mp hmem
   exact List.mem_map_of_mem (List.mem_filter.mp he).1
 
+end generic
+
+theorem map_getD_range_take (xs : List Id) (n : Nat) (h : n ≤ xs.length) :
+    (List.range n).map (fun i => xs.getD i "") = xs.take n := by
+  apply List.ext_getElem?
+  intro k
+  by_cases hk : k < n
+  · have : k < xs.length := by omega
+    simp [hk, this]
+  · simp [hk]
+    omega
+
+/-- the kernel-level predicate holds of the model, for every function and every well-formed
+matrix (stored zeros and any entry order allowed) -/
+theorem kernel_holds [Zero α] [DecidableEq α] (f : VFun α) (ids : List Id) (mds : Option (List Md))
+    (cs cs' : CS α) (log : List (Call α)) (hwf : cs.WF) (hids : cs.nMajor ≤ ids.length)
+    (hmd : ∀ m, mds = some m → cs.nMajor ≤ m.length)
+    (h : transformKernel f ids mds cs = .ok (cs', log)) :
+    holdsK ids mds cs ⟨log, cs'.data, eliminateZeros cs'⟩ = true := by
+  obtain ⟨hcs, hlen, hlog, hw⟩ := transformKernel_spec f ids mds cs cs' log hwf hids hmd h
+  have hptr : cs'.indptr = cs.indptr := by rw [hcs]
+  have hind : cs'.indices = cs.indices := by rw [hcs]
+  have hnM : cs'.nMajor = cs.nMajor := by rw [hcs]
+  have hwf' : cs'.WF := by
+    refine ⟨by rw [hptr, hnM]; exact hwf.ptrLen, by rw [hptr]; exact hwf.ptrZero,
+      by rw [hptr, hnM]; exact hwf.ptrMono, by rw [hptr, hnM, hlen]; exact hwf.ptrLast,
+      by rw [hind, hlen]; exact hwf.sameLen, by rw [hind, hcs]; exact hwf.inRange, ?_⟩
+    intro j hj
+    rw [hnM] at hj
+    have hl := assign_length (hw j hj)
+    have hil := idxSeg_length cs hwf j hj
+    have e' : cs'.slice j = (idxSeg cs j).zip (valSeg cs' j) := by
+      rw [slice_eq]; simp only [idxSeg, valSeg, hptr, hind]
+    rw [e', map_fst_zip _ _ (by omega)]
+    exact idxSeg_nodup cs hwf j hj
+  subst hlog
+  unfold holdsK
+  simp only [Bool.and_eq_true, beq_iff_eq, decide_eq_true_eq]
+  refine ⟨⟨⟨⟨⟨⟨⟨⟨?_, ?_⟩, ?_⟩, ?_⟩, hlen⟩, ?_⟩, ?_⟩, storedZeros_eliminateZeros cs'⟩,
+    wfb_of_wf _ (eliminateZeros_wf cs' hwf')⟩
+  · rw [List.map_map]
+    exact map_getD_range_take ids cs.nMajor hids
+  · rw [List.map_map]; rfl
+  · rw [List.map_map]; rfl
+  · simp
+  · rw [List.all_eq_true]
+    intro ci hci
+    obtain ⟨c, i⟩ := ci
+    have hmem := List.mem_zipIdx hci
+    simp only [Nat.zero_add, Nat.sub_zero] at hmem
+    obtain ⟨_, hi, hc⟩ := hmem
+    have hi' : i < cs.nMajor := by simpa using hi
+    simp only [List.getElem_map, List.getElem_range] at hc
+    subst hc
+    have := hw i hi'
+    simp only [callAt]
+    rw [show segOf cs.indptr cs.data i = valSeg cs i from rfl, this]
+    exact decide_eq_true (by rw [← hptr]; rfl)
+  · rw [eliminateZeros_toDense cs' hwf'.distinct]
+    rw [hcs]
+
+/-- the matrix installed by `transform` is again within the contract (well-formed, no stored
+zero, same shape): the theorems apply to any sequence of transforms -/
+theorem transform_closure [Zero α] [DecidableEq α] (f : VFun α) (ids : List Id) (mds : Option (List Md))
+    (cs cs' : CS α) (log : List (Call α)) (hwf : cs.WF) (hids : cs.nMajor ≤ ids.length)
+    (hmd : ∀ m, mds = some m → cs.nMajor ≤ m.length)
+    (h : transformKernel f ids mds cs = .ok (cs', log)) :
+    (eliminateZeros cs').wfb = true ∧ (eliminateZeros cs').NoStoredZeros ∧
+    (eliminateZeros cs').nMajor = cs.nMajor ∧ (eliminateZeros cs').nMinor = cs.nMinor := by
+  have hk := kernel_holds f ids mds cs cs' log hwf hids hmd h
+  unfold holdsK at hk
+  simp only [Bool.and_eq_true] at hk
+  obtain ⟨hcs, _, _, _⟩ := transformKernel_spec f ids mds cs cs' log hwf hids hmd h
+  refine ⟨hk.2, eliminateZeros_noStoredZeros cs', ?_, ?_⟩
+  · show cs'.nMajor = cs.nMajor
+    rw [hcs]
+  · show cs'.nMinor = cs.nMinor
+    rw [hcs]
+
+section generic
+variable [Zero α] [DecidableEq α]
+
 /-! ### table level: the predicate holds of the model, for every function -/
 
 theorem cFrame_run (t : Table α) (ax : Axis) (cs : CS α) (hp : Pre t ax cs) (f : VFun α) :
@@ -552,7 +634,7 @@ theorem exCq_pre : Pre exTq .samp exCq :=
   ⟨by decide, by decide, exCq_wf, by decide, by decide, by decide, by unfold CS.NoStoredZeros; decide⟩
 
 example : ∃ o, transform normF .samp true exTq exCq = .ok o ∧ cNorm (1 / 1099511627776) exTq .samp o.result = true :=
-  norm_holds _ (by decide) .samp true exTq exCq exCq_pre
+  norm_holds _ (by norm_num) .samp true exTq exCq exCq_pre
 
 example : sumL ([5, 6] : List Rat) ≠ 0 := by simp only [sumL, List.foldr]; norm_num
 end Biom.C13
